@@ -16,6 +16,18 @@ From V Require Import Base.Codec Base.Res Base.ResCodec Sched.LedgerModel Sched.
 Import ListNotations.
 Open Scope Z_scope.
 
+(* A list decoder that refuses impossible lengths: every element takes at least one token, so a
+   length above the number of remaining tokens is malformed input (a stale replay / corpus file in
+   an older wire format) -- answered with bad_input instead of building a huge unary nat. *)
+Definition dListC {A} (p : dec A) : dec (list A) :=
+  fun l => match l with
+           | [] => None
+           | x :: r => if (x <? 0) || (Z.of_nat (length r) <? x) then None else dRep (Z.to_nat x) p r
+           end.
+
+Definition dJobSpecC : dec job_spec :=
+  let* i := dPos in let* q := dPos in let* m := dZ in let* rm := dListC (dPair dPos dZ) in ret (mkJobSpec i q m rm).
+
 Record bind_case := mkBindCase {
   bc_eps : Z; bc_nodes : list node_spec; bc_jobs : list job_spec; bc_tasks : list task_spec;
   bc_workers : Z; bc_exact : bool; bc_calls : list cache_op }.
@@ -29,12 +41,14 @@ Definition dBindReq : dec cache_op :=
   | 2 => let* t := dPos in ret (OpEv (EvTerminating t))
   | 3 => let* t := dPos in ret (OpEv (EvDelete t))
   | 4 => let* e := dZ in let* t := dTaskSpec in ret (OpEv (EvPodAdd (task_of_spec e t)))
+  | 5 => let* t := dPos in let* _ := dBool in ret (OpEv (EvUpdateUnbound t))   (* flag: same resourceVersion (resync) *)
+  | 6 => let* t := dPos in ret (OpEv (EvBoundArrives t))
   | _ => fail
   end.
 
 Definition dBindCase : dec bind_case :=
-  let* e := dZ in let* ns := dList dNodeSpec in let* js := dList dJobSpec in let* ts := dList dTaskSpec in
-  let* g := dZ in let* x := dBool in let* cs := dList dBindReq in ret (mkBindCase e ns js ts g x cs).
+  let* e := dZ in let* ns := dListC dNodeSpec in let* js := dListC dJobSpecC in let* ts := dListC dTaskSpec in
+  let* g := dZ in let* x := dBool in let* cs := dListC dBindReq in ret (mkBindCase e ns js ts g x cs).
 
 Definition cache_of (b : bind_case) : cache :=
   let s := build (bc_eps b) (bc_nodes b) (bc_jobs b) (bc_tasks b) in mkCache (heap s) (jobs s) (nodes s).
@@ -76,7 +90,11 @@ Definition run_agent (b : bind_case) : list Z :=
   let '(ns', out) := fold_left step (bc_calls b) (c_nodes c, []) in
   Z.of_nat (length (bc_calls b)) :: out ++ [-112] ++ eList (fun kv => eNode (snd kv)) (sort_kv (map_to_list ns')).
 
-(* ---- law 112 ---- *)
+(* ---- law 112 ----
+   [held]: per node, the pods the real node holds at the end TOGETHER WITH the pods of every
+   accepted AddBindTask aimed at that node whose pod has not been deleted since (an accepted bind
+   reserves the pod's request on its target from then on; a bind in flight appears in no delivered
+   pod object, so a cache that forgets the reservation would otherwise go unnoticed). *)
 Definition law_bind (b : bind_case) (held : list (positive * list positive)) : bool :=
   let ts := map (task_of_spec (bc_eps b)) (bc_tasks b) in
   forallb (fun n =>
@@ -88,22 +106,15 @@ Definition law_bind (b : bind_case) (held : list (positive * list positive)) : b
     (bc_nodes b).
 
 Definition dBindLaw : dec (bind_case * list (positive * list positive)) :=
-  let* b := dBindCase in let* h := dList (dPair dPos (dList dPos)) in ret (b, h).
+  let* b := dBindCase in let* h := dListC (dPair dPos (dListC dPos)) in ret (b, h).
 
-(* ---- stream 4: preempt / reclaim / allocate / backfill action lists (wire format of the C04
-        harness's spec; only the cluster part is read here) ---- *)
-Definition dSkip3 : dec unit := let* _ := dZ in let* _ := dZ in let* _ := dZ in ret tt.
-(* whatever follows (fault scripts of the C04 harness: not read here) *)
-Definition dRest : dec unit := fun _ => Some (tt, []).
+(* ---- stream 4: preempt / reclaim / allocate / backfill action lists.  Wire format of C02's own
+        (harness/cmd/c02/evict.go encEvictCase): eps, nodes, jobs, tasks -- what the model reads --
+        followed by one length-prefixed block of integers that only the Go side interprets (queues,
+        priorities, tiers, actions, fault script). ---- *)
 Definition dEvictSpec : dec (Z * list node_spec * list job_spec * list task_spec) :=
-  let* e := dZ in let* ns := dList dNodeSpec in let* _ := dList dQueueSpec in let* js := dList dCycleJob in
-  let* ts := dList dTaskSpec in
-  let* _ := dList dSkip3 in                 (* job: priority, kube-system *)
-  let* _ := dList (dPair dZ dZ) in          (* task: priority class *)
-  let* _ := dList (dPair dZ dZ) in          (* queue: reclaimable *)
-  let* _ := dList (dList dSkip3) in         (* tiers *)
-  let* _ := dList dZ in                     (* actions *)
-  let* _ := dRest in
+  let* e := dZ in let* ns := dListC dNodeSpec in let* js := dListC dJobSpecC in let* ts := dListC dTaskSpec in
+  let* _ := dListC dZ in
   ret (e, ns, js, ts).
 
 (* the session the actions start from: its node ledgers *)
@@ -131,8 +142,8 @@ Definition law_nodes_held (eps : Z) (ns : list node_spec) (tsp : list task_spec)
     implb (sum_le initially alloc) (sum_le used alloc && sum_le (staying ++ pipelined) alloc)) ns.
 
 Definition dEvictLaw : dec (Z * list node_spec * list task_spec * list (positive * list (positive * status))) :=
-  let* e := dZ in let* ns := dList dNodeSpec in let* ts := dList dTaskSpec in
-  let* h := dList (dPair dPos (dList (dPair dPos dStatus))) in ret (e, ns, ts, h).
+  let* e := dZ in let* ns := dListC dNodeSpec in let* ts := dListC dTaskSpec in
+  let* h := dListC (dPair dPos (dListC (dPair dPos dStatus))) in ret (e, ns, ts, h).
 
 Definition entry (sel : Z) (toks : list Z) : list Z :=
   match sel with
